@@ -254,6 +254,69 @@ func driveVerify(c *ctx) {
 		}
 	}
 
+	// constructed: u2 = r/s steered to the corner cases of the variable-base multiply (extreme GLV halves, rounding-bit flips, limb
+	// carries, zero limbs).  Choose u1, u2 and the key d, set R = (u1 + u2 d) G, r = x(R) mod n, s = r / u2, e = u1 s: a VALID signature.
+	{
+		us := steeredScalars(rng, c.scale(4, 60))
+		for i, u2 := range us {
+			if u2.Sign() == 0 || (!c.thorough() && i%2 == 1) {
+				continue
+			}
+			d := add(randBig(rng, add(bigN, -1)), 1)
+			u1 := randBig(rng, bigN)
+			if i%5 == 0 {
+				u1 = us[(i*7+3)%len(us)]
+			}
+			kk := new(big.Int).Mod(new(big.Int).Add(u1, new(big.Int).Mul(u2, d)), bigN)
+			if kk.Sign() == 0 {
+				continue
+			}
+			xb, _ := mulG(kk).XBytes()
+			r := new(big.Int).Mod(new(big.Int).SetBytes(xb), bigN)
+			if r.Sign() == 0 {
+				continue
+			}
+			sv := new(big.Int).Mod(new(big.Int).Mul(r, new(big.Int).ModInverse(u2, bigN)), bigN)
+			e := new(big.Int).Mod(new(big.Int).Mul(u1, sv), bigN)
+			pub := privFrom(d).PublicKey()
+			raw(pub, be32(e)[:], r, sv)
+			enc(pub, be32(e)[:], secec.BuildCompactSignature(scFrom(r), scFrom(sv)), &secec.ECDSAOptions{Encoding: secec.EncodingCompact})
+		}
+	}
+	// a public key object keeps verifying after the caller scribbles over everything it handed out
+	for i := 0; i < c.scale(3, 30); i++ {
+		priv := privFrom(add(randBig(rng, add(bigN, -1)), 1))
+		pub := priv.PublicKey()
+		digest := randBytes(rng, 32)
+		r, s, v, err := priv.SignRaw(&fixedReader{randBytes(rng, 32)}, digest)
+		if err != nil {
+			panic(err)
+		}
+		keyHex := hx(pub.Bytes())
+		for _, sl := range [][]byte{pub.Bytes(), pub.CompressedBytes(), pub.ASN1Bytes()} {
+			for j := range sl {
+				sl[j] = byte(0x33 + j)
+			}
+		}
+		pt := pub.Point()
+		pt.Double(pt)
+		rs, ss := new(big.Int).SetBytes(r.Bytes()), new(big.Int).SetBytes(s.Bytes())
+		for _, e := range []secec.SignatureEncoding{secec.EncodingASN1, secec.EncodingCompact, secec.EncodingCompactRecoverable} {
+			var sig []byte
+			switch e {
+			case secec.EncodingASN1:
+				sig = secec.BuildASN1Signature(r, s)
+			case secec.EncodingCompact:
+				sig = secec.BuildCompactSignature(r, s)
+			default:
+				sig = secec.BuildCompactRecoverableSignature(r, s, v)
+			}
+			out := pub.Verify(digest, sig, &secec.ECDSAOptions{Encoding: e})
+			c.E("vfy.Enc", "q", keyHex, "digest", hx(digest), "sig", hx(sig), "hasopts", true, "hash", 32, "enc", encName(e), "rejmal", false, "out", out, "after_scribble", true)
+		}
+		c.E("vfy.Raw", "q", keyHex, "digest", hx(digest), "r", h32(rs), "s", h32(ss), "out", pub.VerifyRaw(digest, r, s), "after_scribble", true)
+	}
+
 	// DER structure: mutated encodings through Verify and the Bitcoin entry point
 	{
 		priv := privFrom(big.NewInt(12345))
@@ -655,6 +718,33 @@ func driveKeys(c *ctx) {
 		c.E("key.Immutable", "d", h32(d), "kb1", kb1, "kb2", hx(k.Bytes()), "pb1", pb1, "pb2", hx(k.PublicKey().Bytes()), "pc1", pc1, "pc2", hx(k.PublicKey().CompressedBytes()),
 			"pa1", pa1, "pa2", hx(k.PublicKey().ASN1Bytes()), "pp1", pp1, "pp2", hx(k.PublicKey().Point().UncompressedBytes()),
 			"sig1", hx(sig1), "sig2", hx(sig2), "copies_ok", copies, "verify_after", k.PublicKey().Verify(dg, sig1, nil))
+	}
+
+	// all 256 prefixes in front of a valid x (compressed length) and a valid x || y (uncompressed length)
+	{
+		k := privFrom(big.NewInt(0x1234567))
+		u, cm := k.PublicKey().Bytes(), k.PublicKey().CompressedBytes()
+		for pf := 0; pf < 256; pf++ {
+			uu, cc := append([]byte{}, u...), append([]byte{}, cm...)
+			uu[0], cc[0] = byte(pf), byte(pf)
+			pub(uu, false)
+			pub(cc, false)
+		}
+	}
+	// ECDH twice on the SAME key objects: the peer key is an operand, not scratch space
+	for i := 0; i < c.scale(6, 60); i++ {
+		a, b := add(randBig(rng, add(bigN, -1)), 1), add(randBig(rng, add(bigN, -1)), 1)
+		ka, kb := privFrom(a), privFrom(b)
+		peer, err := secec.NewPublicKey(kb.PublicKey().CompressedBytes())
+		if err != nil {
+			panic(err)
+		}
+		ab1, e1 := ka.ECDH(peer)
+		ab2, e2 := ka.ECDH(peer)
+		ba, e3 := kb.ECDH(ka.PublicKey())
+		ba2, e4 := kb.ECDH(ka.PublicKey())
+		c.E("ecdh.Repeat", "a", h32(a), "b", h32(b), "ab1", hx(ab1), "ab2", hx(ab2), "ba1", hx(ba), "ba2", hx(ba2), "ok", e1 == nil && e2 == nil && e3 == nil && e4 == nil,
+			"peer_bytes", hx(peer.Bytes()), "peer_point", hx(peer.Point().UncompressedBytes()), "apub_bytes", hx(ka.PublicKey().Bytes()), "apub_point", hx(ka.PublicKey().Point().UncompressedBytes()))
 	}
 
 	// ECDH
